@@ -20,6 +20,8 @@ import time
 
 VERIF = os.path.dirname(os.path.dirname(os.path.abspath(__file__)))
 SEEDS = "/tmp/seeds"
+WT_PREFIX = "/tmp/wt-"
+TAG = ""
 
 
 def sh(cmd, cwd=None, env=None, timeout=1800):
@@ -28,7 +30,7 @@ def sh(cmd, cwd=None, env=None, timeout=1800):
 
 
 def confirm(prop, n, src):
-    wt = "/tmp/wt-%s" % prop
+    wt = "%s%s" % (WT_PREFIX, prop)
     out = {}
     if not os.path.isdir(wt):
         return {"skipped": "worktree gone"}
@@ -80,15 +82,28 @@ def run_check(prop, src, budget, tier="quick", seed=None):
 
 
 def main():
+    global SEEDS, WT_PREFIX, TAG
     args = [a for a in sys.argv[1:] if not a.startswith("--")]
     budget = None
     tier = "quick"
+    consumed = []
     for i, a in enumerate(sys.argv):
         if a == "--budget":
             budget = sys.argv[i + 1]
+            consumed.append(budget)
         if a == "--tier":
             tier = sys.argv[i + 1]
-    args = [a for a in args if a not in (budget, tier)]
+            consumed.append(tier)
+        if a == "--seeds":
+            SEEDS = sys.argv[i + 1]
+            consumed.append(SEEDS)
+        if a == "--wt-prefix":
+            WT_PREFIX = sys.argv[i + 1]
+            consumed.append(WT_PREFIX)
+        if a == "--tag":
+            TAG = sys.argv[i + 1]
+            consumed.append(TAG)
+    args = [a for a in args if a not in consumed]
     todo = []
     for prop in sorted(os.listdir(SEEDS)):
         for n in sorted(os.listdir(os.path.join(SEEDS, prop))):
@@ -97,7 +112,7 @@ def main():
                 if not args or prop in args or "%s-%s" % (prop, n) in args:
                     todo.append((prop, n, src))
     for prop, n, src in todo:
-        dst = os.path.join(VERIF, "seeded", "%s-%s" % (prop, n))
+        dst = os.path.join(VERIF, "seeded", "%s-%s%s" % (prop, TAG + "-" if TAG else "", n))
         os.makedirs(dst, exist_ok=True)
         for f in ("patch.diff", "demo.py", "notes.md"):
             if os.path.exists(os.path.join(src, f)):
